@@ -1807,7 +1807,16 @@ func resolveIndex(v, index reflect.Value, indexAsStr string) (reflect.Value, err
 		if !indexVal.Type().ConvertibleTo(v.Type().Key()) {
 			return reflect.Value{}, fmt.Errorf("can't use %s (%s) as key for map of type %s", indexAsStr, indexVal.Type(), v.Type())
 		}
+		if !indexVal.Type().Comparable() {
+			// (an interface-keyed map would take it, and panic while hashing it)
+			return reflect.Value{}, fmt.Errorf("can't use %s (%s) as key for map of type %s", indexAsStr, indexVal.Type(), v.Type())
+		}
 		index = indexVal.Convert(v.Type().Key()) // noop in most cases, but not expensive
+		if canNumber(indexVal.Kind()) && canNumber(index.Kind()) && !checkEquality(indexVal, index) {
+			// the number does not fit the key type (300 for a uint8 key, 1.5 for an int key): what it wraps
+			// or truncates to is another key; this one is not in the map
+			return reflect.Value{}, nil
+		}
 		return indirectEface(v.MapIndex(index)), nil
 	case reflect.Ptr:
 		etyp := v.Type().Elem()
